@@ -23,8 +23,10 @@ RULE = ("fresh weights of every library initializer, observed three ways (initia
         "clamps, units 1-3, is_cyclic), KroneckerFactoredLattice (sizes 2-4, dims 1-3, units 1-2, terms 1-3, "
         "all bound modes => all scale sign patterns; raw uniform draws recovered by re-seeding), "
         "CategoricalCalibration (raw initial matrices through a constant initializer, default 'uniform'/'constant' "
-        "ids, acyclic pair lists, bounds). On every fresh layer: every configured inequality (latpred), "
-        "assert_constraints(), and kernel.constraint(kernel) == kernel for monotonicity+bounds-only configs. "
+        "ids, acyclic pair lists, bounds). On every fresh layer: every configured inequality (latpred), one clause "
+        "per configured constraint, assert_constraints(), and kernel.constraint(kernel) == kernel for "
+        "monotonicity+bounds-only configs. About 10% of the layer-route cases of all four layer kinds (plus fixed "
+        "witnesses) build the layer in float32, the layers' default dtype (predicates only, tolerance 1e-5). "
         "Non-trivial = the initial kernel is not constant; distinct = distinct desc.")
 TRUSTED = ["model: Model/LatticeInit.v, Model/PWLInit.v, Model/KFLInit.v (hand-written from lattice_lib / "
            "lattice_layer / pwl_calibration_lib / pwl_calibration_layer / kronecker_factored_lattice_lib); "
@@ -37,12 +39,35 @@ TRUSTED = ["model: Model/LatticeInit.v, Model/PWLInit.v, Model/KFLInit.v (hand-w
            "explicit hypothesis (proved for the abstract scheme in C08); the tie observes constraint(kernel) == kernel",
            "canonicalisation of strings ('increasing', 'valley', ...) is done by the harness before the model "
            "(C16 covers the canonicalisers)"]
-LIMITS = ["float rounding outside the model (tolerance 1e-9; the float64 path is used everywhere)",
+LIMITS = ["float rounding outside the model (tolerance 1e-9 on the float64 path)",
+          "float32 (the layers' DEFAULT dtype): about 10% of the layer-route cases (Lattice / PWLCalibration / "
+          "KroneckerFactoredLattice / CategoricalCalibration, desc field dtype='float32', class suffix _f32) build the "
+          "layer in float32; on these only the property predicates are evaluated (tolerance 1e-5 relative to "
+          "max(1, |v|), assert_constraints(eps = that tolerance)); the Coq comparison is SKIPPED for them because "
+          "Harness/H_C10.v check compares with the fixed tolerance 1e-9 (tol32 is defined there but not used by check)",
+          "known-finding classes (D6, D24, D25, D63) are matched clause by clause: every violated clause names its "
+          "constraint (dimension / trust / pair / group) and must belong to the sub-case the finding describes; the "
+          "assert_constraints clause carries the feature indices parsed from the library's message",
           "Keras initializer objects / ids other than the library's own are outside the property",
           "KFL function-level monotonicity/bounds are proved for arbitrary per-dimension interpolated values "
           "(convex combinations of adjacent kernel entries); the interpolation itself is C07's model"]
 
 PRED_TOL = 1e-9
+F32_TOL = 1e-5
+F32_SHARE = 0.1
+
+
+def dtype_of(d):
+  return d.get("dtype", "float64")
+
+
+def tol_of(d):
+  """Relative comparison tolerance of a case (multiplied by max(1, |v|) at each use)."""
+  return F32_TOL if dtype_of(d) == "float32" else PRED_TOL
+
+
+def draw_dtype(rng):
+  return "float32" if rng.random() < F32_SHARE else "float64"
 
 LIN_IDS = ["linear_initializer", "LinearInitializer"]
 RND_IDS = ["random_monotonic_initializer", "RandomMonotonicInitializer"]
@@ -98,22 +123,56 @@ def _clauses(case):
   return [c for c in (case.pred_fail or "").split("; ") if c]
 
 
-def _d6(case):
+def _meta(case):
+  """Structured clauses of a lattice-layer case: [{text, fam, key, src}] (src 'pred' = inequality evaluated by the
+  harness on the fresh kernel, 'assert' = the layer's own assert_constraints, 'other' = anything else). None when
+  they do not line up with pred_fail (then no class matches and the case is reported)."""
+  info = case.info if isinstance(case.info, dict) else {}
+  m = info.get("clauses")
+  if not m or [c.get("text") for c in m] != _clauses(case):
+    return None
+  return m
+
+
+def _lattice_layer(case):
   d = case.desc
-  if d.get("kind") != "lattice" or d.get("route") != "layer" or resolved(d) != 0:
+  return d.get("kind") == "lattice" and d.get("route") == "layer"
+
+
+def _configured(cfg, fam, key):
+  """The configured constraints of family fam that an 'assert' clause with feature indices key can refer to."""
+  lst = {"edge": cfg["edge"], "trap": cfg["trap"], "mdom": cfg["mdom"], "rdom": cfg["rdom"], "jmono": cfg["jmono"]}.get(fam, [])
+  return [list(t) for t in lst if key is not None and list(t[:2]) == list(key[:2])]
+
+
+def _d6_constraint_ok(cfg, au, fam, t):
+  """D6 (a) trapezoid trust whose CONDITIONAL feature is monotone or unimodal, (b) monotonic dominance whose dominant
+  dimension has MORE vertices than the weak one, (c) joint monotonicity touching a unimodal dimension."""
+  if fam == "trap":
+    return bool(cfg["monos"][t[1]] or au[t[1]])
+  if fam == "mdom":
+    return cfg["sizes"][t[0]] > cfg["sizes"][t[1]]
+  if fam == "jmono":
+    return bool(au[t[0]] or au[t[1]])
+  return False
+
+
+def _d6(case):
+  if not _lattice_layer(case) or resolved(case.desc) != 0:
     return False
-  cfg = d["cfg"]
+  meta = _meta(case)
+  if meta is None:
+    return False
+  cfg = case.desc["cfg"]
   au = all_unimodalities(cfg)
-  trig_trap = any(cfg["monos"][c] or au[c] for _, c, _ in cfg["trap"])
-  trig_mdom = any(cfg["sizes"][a] > cfg["sizes"][b] for a, b in cfg["mdom"])
-  trig_jm = any(au[a] or au[b] for a, b in cfg["jmono"])
-  for c in _clauses(case):
-    if c.startswith("trapezoid trust") or c.startswith("assert_constraints: Trapezoid trust violation"):
-      ok = trig_trap
-    elif c.startswith("monotonic dominance") or c.startswith("assert_constraints: Dominance violation"):
-      ok = trig_mdom
-    elif c.startswith("joint monotonicity") or c.startswith("assert_constraints: Joint monotonicity violation"):
-      ok = trig_jm
+  for c in meta:
+    if c["fam"] not in ("trap", "mdom", "jmono") or c["key"] is None:
+      return False
+    if c["src"] == "pred":
+      ok = _d6_constraint_ok(cfg, au, c["fam"], c["key"])
+    elif c["src"] == "assert":
+      hit = _configured(cfg, c["fam"], c["key"])
+      ok = bool(hit) and all(_d6_constraint_ok(cfg, au, c["fam"], t) for t in hit)
     else:
       ok = False
     if not ok:
@@ -121,26 +180,61 @@ def _d6(case):
   return True
 
 
+# D24: families the finding lists (unimodalities - regular and joint -, trusts, dominances); never monotonicity,
+# bounds, joint monotonicity (an all-increasing kernel satisfies it) or a statement / idempotence clause
+_D24_FAMILIES = ("uni", "juni", "edge", "trap", "mdom", "rdom")
+
+
 def _d24(case):
-  d = case.desc
-  if d.get("kind") != "lattice" or d.get("route") != "layer" or resolved(d) != 1:
+  if not _lattice_layer(case) or resolved(case.desc) != 1:
     return False
-  if only_mono_bounds(d["cfg"]):
+  cfg = case.desc["cfg"]
+  if only_mono_bounds(cfg) or case.info.get("initializer") != "RandomMonotonicInitializer":
     return False
-  allowed = ("unimodality", "edgeworth trust", "trapezoid trust", "monotonic dominance", "range dominance",
-             "joint unimodality", "assert_constraints: Edgeworth trust violation",
-             "assert_constraints: Trapezoid trust violation", "assert_constraints: Dominance violation",
-             "assert_constraints: Range dominance violation")
-  return all(any(c.startswith(a) for a in allowed) for c in _clauses(case))
+  meta = _meta(case)
+  if meta is None:
+    return False
+  for c in meta:
+    if c["fam"] not in _D24_FAMILIES or c["key"] is None:
+      return False
+    if c["src"] == "assert":
+      if not _configured(cfg, c["fam"], c["key"]):
+        return False
+    elif c["src"] != "pred":
+      return False
+  return True
 
 
 def _d25(case):
+  """ONE joint unimodality group over all features + the default initializer id: the layer is built by the Keras
+  random_uniform(-0.05, 0.05) fall-back. Only clauses that this kernel explains: output bounds, the joint
+  unimodality group itself and joint monotonicities configured next to it (the fall-back ignores every constraint;
+  no other family can be configured together with an all-features group)."""
   d = case.desc
-  if d.get("kind") != "lattice" or d.get("route") != "layer" or d["id"] not in UOL_IDS or not juni_all(d["cfg"]):
+  if not _lattice_layer(case) or d["id"] not in UOL_IDS or not juni_all(d["cfg"]):
     return False
-  allowed = ("output bounds", "joint unimodality", "joint monotonicity", "assert_constraints: Lower bound violation",
-             "assert_constraints: Upper bound violation", "assert_constraints: Joint monotonicity violation")
-  return all(any(c.startswith(a) for a in allowed) for c in _clauses(case))
+  if case.info.get("initializer") != "RandomUniform":
+    return False
+  k = case.info.get("kernel") or []
+  if not k or max(abs(float(v)) for v in k) > 0.05:
+    return False
+  meta = _meta(case)
+  if meta is None:
+    return False
+  for c in meta:
+    if c["fam"] not in ("bounds", "juni", "jmono") or c["key"] is None:
+      return False
+    if c["fam"] == "bounds":
+      # random_uniform(-0.05, 0.05) can only leave a lower bound above -0.05 / an upper bound below 0.05
+      b = d["cfg"]["omin"] if c["key"] == ["lower"] else d["cfg"]["omax"] if c["key"] == ["upper"] else None
+      if b is None or (c["key"] == ["lower"] and b <= -0.05) or (c["key"] == ["upper"] and b >= 0.05):
+        return False
+    elif c["src"] == "assert":
+      if not _configured(d["cfg"], c["fam"], c["key"]):
+        return False
+    elif c["src"] != "pred":
+      return False
+  return True
 
 
 def _d15(case):
@@ -150,16 +244,27 @@ def _d15(case):
   return all(c.startswith("ordering pair") or c.startswith("assert_constraints") for c in _clauses(case))
 
 
+def _overwritten_dims(cfg):
+  """Dimensions whose REGULAR unimodality direction differs from the direction of a joint group containing them."""
+  out = set()
+  for dims, direction in cfg["juni"]:
+    for dd in dims:
+      if cfg["uni"][dd] and cfg["uni"][dd] != (1 if direction == "valley" else -1):
+        out.add(dd)
+  return out
+
+
 def _juni_overwrite(case):
   """Linear initializer, a joint unimodality group contains a dimension whose REGULAR unimodality has the other
   direction: create_kernel_initializer's merge lets the joint direction win, so the fresh kernel violates the regular
-  unimodality (and only that). Takes effect only when known_findings.json lists the class."""
-  d = case.desc
-  if d.get("kind") != "lattice" or d.get("route") != "layer" or resolved(d) != 0:
+  unimodality OF THAT DIMENSION (and only that). Takes effect only when known_findings.json lists the class."""
+  if not _lattice_layer(case) or resolved(case.desc) != 0:
     return False
-  if juni_overwrites(d["cfg"]) != 2:
+  bad = _overwritten_dims(case.desc["cfg"])
+  meta = _meta(case)
+  if not bad or meta is None:
     return False
-  return all(c.startswith("unimodality") for c in _clauses(case))
+  return all(c["fam"] == "uni" and c["src"] == "pred" and c["key"] is not None and c["key"][0] in bad for c in meta)
 
 
 KNOWN_CLASSES = {
@@ -258,7 +363,10 @@ def gen_lattice(rng, i):
   form = rng.choice(["int", "int", "str", "none"])
   if form == "none" and any(cfg["monos"]):
     form = "int"
-  return dict(kind="lattice", route=route, id=ident, cfg=cfg, init=init, seed=1000 + i, form=form)
+  d = dict(kind="lattice", route=route, id=ident, cfg=cfg, init=init, seed=1000 + i, form=form)
+  if route == "layer":
+    d["dtype"] = draw_dtype(rng)
+  return d
 
 
 def default_descs():
@@ -289,7 +397,7 @@ def gen_pwl(rng):
     cyclic = mono == 0 and not slopes and n >= 3 and rng.random() < 0.3
     return dict(kind="pwl", route=route, kps=kps, units=units, mono=mono, slopes=slopes, omin=omin, omax=omax,
                 clamp_min=mono != 0 and rng.random() < 0.3, clamp_max=mono != 0 and rng.random() < 0.3, cyclic=cyclic,
-                form=rng.choice(["int", "str"]))
+                form=rng.choice(["int", "str"]), dtype=draw_dtype(rng))
   a = tfimpl.dy(rng, -4, 4)
   return dict(kind="pwl", route=route, kps=kps, units=units, mono=mono, slopes=slopes, omin=a,
               omax=a + rng.choice([0.0, 0.5, 2.0, 5.0]), clamp_min=False, clamp_max=False, cyclic=False,
@@ -304,7 +412,8 @@ def gen_kfl(rng, i):
   return dict(kind="kfl", size=rng.choice([2, 3, 3, 4]), dims=dims, units=rng.choice([1, 1, 2]),
               terms=rng.choice([1, 2, 3]), monos=monos if rng.random() < 0.9 else None,
               omin=a if mode in ("min", "both") else None,
-              omax=a + rng.choice([0.5, 2.0]) if mode in ("max", "both") else None, seed=2000 + i)
+              omax=a + rng.choice([0.5, 2.0]) if mode in ("max", "both") else None, seed=2000 + i,
+              dtype=draw_dtype(rng))
 
 
 def gen_categorical(rng, i):
@@ -321,7 +430,7 @@ def gen_categorical(rng, i):
   init = rng.choice(["raw", "raw", "uniform", "uniform", "constant"])
   raw = [[tfimpl.dy(rng, -3, 3) for _ in range(units)] for _ in range(n)] if init == "raw" else None
   return dict(kind="categorical", n=n, units=units, pairs=[list(p) for p in pairs], omin=omin, omax=omax,
-              init=init, raw=raw, seed=3000 + i)
+              init=init, raw=raw, seed=3000 + i, dtype=draw_dtype(rng))
 
 
 def regression_descs():
@@ -341,6 +450,18 @@ def regression_descs():
       dict(kind="categorical", n=3, units=1, pairs=[[0, 1], [1, 2]], omin=0.0, omax=1.0, init="uniform", raw=None, seed=0),
       dict(kind="categorical", n=3, units=2, pairs=[[0, 1], [1, 2]], omin=None, omax=None, init="raw",
            raw=[[0.5, 1.0], [0.25, -1.0], [2.0, 0.0]], seed=0),
+  ]
+  # the layers' DEFAULT dtype: the same witnesses and exact shapes once more in float32 (predicates only)
+  out += [dict(x, dtype="float32") for x in out if x["kind"] in ("lattice", "categorical")]
+  out += [
+      dict(kind="lattice", route="layer", id=LIN_IDS[0], cfg=mk(sizes=[3, 4], monos=[1, 1], rdom=[[0, 1]], edge=[[1, 0, -1]], omin=-3.0, omax=5.0, units=3), init=None, seed=9, form="int", dtype="float32"),
+      dict(kind="lattice", route="layer", id=RND_IDS[0], cfg=mk(sizes=[3, 3, 2], monos=[1, 1, 1], uni=[0, 0, 0], omin=0.125, omax=7.875, units=2), init=None, seed=10, form="str", dtype="float32"),
+      dict(kind="pwl", route="layer", kps=[-3.875, -1.0, 0.125, 4.0], units=2, mono=-1, slopes=True, omin=-2.5, omax=3.0,
+           clamp_min=True, clamp_max=False, cyclic=False, form="int", dtype="float32"),
+      dict(kind="pwl", route="layer", kps=[0.0, 0.125, 2.625], units=1, mono=0, slopes=False, omin=None, omax=1.5,
+           clamp_min=False, clamp_max=False, cyclic=True, form="str", dtype="float32"),
+      dict(kind="kfl", size=3, dims=2, units=2, terms=2, monos=[1, 0], omin=-1.5, omax=0.5, seed=2999, dtype="float32"),
+      dict(kind="kfl", size=4, dims=3, units=1, terms=3, monos=[1, 1, 1], omin=None, omax=3.0, seed=2998, dtype="float32"),
   ]
   return out
 
@@ -389,14 +510,69 @@ def coq_order(order):
   return clist([clist([cnatl(v) for v in lvl]) if lvl else "(@nil idx)" for lvl in order])
 
 
+_ASSERT_FAMILIES = [("Trapezoid trust violation", "trap"), ("Edgeworth trust violation", "edge"),
+                    ("Range dominance violation", "rdom"), ("Dominance violation", "mdom"),
+                    ("Joint monotonicity violation", "jmono"), ("Joint unimodality violation", "juni"),
+                    ("Lower bound violation", "bounds"), ("Upper bound violation", "bounds"),
+                    ("Monotonicity violation", "mono")]
+
+
 def assert_msg(e):
+  return assert_clause(e)[0]
+
+
+def assert_clause(e):
+  """(text, family, key) of the library's own assertion failure. tf.Assert summarises its data one item per line:
+  b'Trapezoid trust violation' / b'Feature indices:' / 0 / b',' / 1 / ... ; the feature indices are parsed out of
+  it so that the clause names the constraint (key None when they cannot be parsed)."""
+  import re  # pylint: disable=g-import-not-at-top
   s = str(e)
-  for m in ("Trapezoid trust violation", "Edgeworth trust violation", "Range dominance violation", "Dominance violation",
-            "Joint monotonicity violation", "Joint unimodality violation", "Lower bound violation",
-            "Upper bound violation", "Monotonicity violation"):
+  for m, fam in _ASSERT_FAMILIES:
     if m in s:
-      return m
-  return type(e).__name__ + " " + s.split("\n")[0][:80]
+      if fam == "bounds":
+        return m, fam, ["lower" if m.startswith("Lower") else "upper"]
+      if fam == "mono":
+        g = re.search(r"Feature index:'?\s*\n\s*(\d+)\s*\n", s)
+        key = [int(g.group(1))] if g else None
+      else:
+        g = re.search(r"Feature indices:'?\s*\n\s*(\d+)\s*\nb?'?,'?\s*\n\s*(\d+)\s*\n", s)
+        key = [int(g.group(1)), int(g.group(2))] if g else None
+      return (m + (" %s" % (tuple(key),) if key else "")), fam, key
+  return type(e).__name__ + " " + s.split("\n")[0][:80].replace("; ", ", "), "other", None
+
+
+def constraint_violations(W, sizes, cfg):
+  """One entry (family, key, label, largest violation) per CONFIGURED constraint: per monotone / unimodal dimension,
+  per bound, per trust / dominance / joint-monotonicity tuple (a repeated tuple once), per joint unimodality group."""
+  rank = len(sizes)
+  one = lambda dd, v: [v if k == dd else 0 for k in range(rank)]
+  out = []
+  for dd, m in enumerate(cfg["monos"]):
+    if m:
+      out.append(("mono", [dd], "monotonicity dim %d" % dd, latpred.mono_viol(W, sizes, one(dd, m))))
+  for dd, u in enumerate(cfg["uni"]):
+    if u:
+      out.append(("uni", [dd], "unimodality dim %d (%s)" % (dd, "valley" if u == 1 else "peak"),
+                  latpred.unimodality_viol(W, sizes, one(dd, u))))
+  if cfg["omin"] is not None:
+    out.append(("bounds", ["lower"], "output bounds lower", latpred.bounds_viol(W, cfg["omin"], None)))
+  if cfg["omax"] is not None:
+    out.append(("bounds", ["upper"], "output bounds upper", latpred.bounds_viol(W, None, cfg["omax"])))
+  seen = set()
+  for fam, name, fn in (("edge", "edgeworth trust", latpred.edgeworth_viol), ("trap", "trapezoid trust", latpred.trapezoid_viol),
+                        ("mdom", "monotonic dominance", latpred.monotonic_dominance_viol),
+                        ("rdom", "range dominance", latpred.range_dominance_viol),
+                        ("jmono", "joint monotonicity", latpred.joint_monotonicity_viol)):
+    for t in cfg[fam]:
+      key = [int(x) for x in t]
+      if (fam, tuple(key)) in seen:
+        continue
+      seen.add((fam, tuple(key)))
+      out.append((fam, key, "%s %s" % (name, tuple(key)), fn(W, sizes, [key])))
+  for gi, (dims, direction) in enumerate(cfg["juni"]):
+    out.append(("juni", [gi], "joint unimodality group %d (%s, %s)" % (gi, ",".join(str(x) for x in dims), direction),
+                latpred.joint_unimodality_viol(W, sizes, [[list(dims), direction]])))
+  return out
 
 
 def invert_random(w_col, sizes):
@@ -424,7 +600,7 @@ def lattice_layer_kwargs(tfl, d):
   return kw
 
 
-def linear_statement(W, sizes, monos, unis, imin, imax):
+def linear_statement(W, sizes, monos, unis, imin, imax, rtol=PRED_TOL):
   """The property's own description of the linear initialiser, on the implementation's kernel."""
   fails = []
   rank = len(sizes)
@@ -435,7 +611,7 @@ def linear_statement(W, sizes, monos, unis, imin, imax):
     monos = [1] * rank
   ncd = sum(1 for m in monos if m) + sum(1 for u in unis if u)
   r = (imax - imin) / ncd
-  tol = PRED_TOL * max(1.0, abs(imin), abs(imax))
+  tol = rtol * max(1.0, abs(imin), abs(imax))
   for dd in range(rank):
     diff = np.diff(t, axis=dd)
     if monos[dd]:
@@ -507,18 +683,23 @@ def eval_lattice(tf, tfl, d):
   kw = lattice_layer_kwargs(tfl, d)
   juni_kw = kw["joint_unimodalities"]
   unis_kw = kw["unimodalities"]
+  f32 = d["route"] == "layer" and dtype_of(d) == "float32"
+  rtol = tol_of(d) if f32 else PRED_TOL
   if d["route"] == "create":
     ov = d["init"] or [None, None]
     init = tfl.lattice_layer.create_kernel_initializer(
         d["id"], sizes, kw["monotonicities"], cfg["omin"], cfg["omax"], unis_kw, juni_kw, ov[0], ov[1])
   else:
-    layer = tfl.layers.Lattice(units=units, kernel_initializer=d["id"], dtype="float64", **kw)
+    layer = tfl.layers.Lattice(units=units, kernel_initializer=d["id"], dtype="float32" if f32 else "float64", **kw)
     init = layer.kernel_initializer
   tname = type(init).__name__
   which_impl = 0 if tname == "LinearInitializer" else 1 if tname == "RandomMonotonicInitializer" else 2
   if layer is not None:
     layer.build((None, rank) if units == 1 else (None, units, rank))
     W = layer.kernel.numpy()
+    if str(W.dtype) != ("float32" if f32 else "float64"):
+      fails.append("kernel dtype %s differs from the layer dtype" % W.dtype)
+    W = W.astype(np.float64)
   else:
     W = np.asarray(init(shape=[n, units], dtype=tf.float64))
   if d["init"]:
@@ -528,35 +709,36 @@ def eval_lattice(tf, tfl, d):
   au = all_unimodalities(cfg)
   order, samples = ([], [])
   if which_impl == 0:
-    fails += linear_statement(W, sizes, monos_m, au, imin, imax)
+    fails += linear_statement(W, sizes, monos_m, au, imin, imax, rtol)
   elif which_impl == 1:
     order, samples = invert_random(W[:, 0], sizes)
     fails += random_statement(W, sizes, imin, imax)
   if which_impl != which:
     fails.append("initializer id %s resolved to %s" % (d["id"], tname))
   keras_id = d["id"] not in LIN_IDS + RND_IDS + UOL_IDS
+  meta = [{"text": t, "fam": "other", "key": None, "src": "other"} for t in fails]
+
+  def add(text, fam="other", key=None, src="other"):
+    fails.append(text)
+    meta.append({"text": text, "fam": fam, "key": key, "src": src})
   if layer is not None and not keras_id:
-    tol = PRED_TOL * max(1.0, float(np.abs(W).max()))
-    checks = [("monotonicity", latpred.mono_viol(W, sizes, cfg["monos"])),
-              ("unimodality", latpred.unimodality_viol(W, sizes, cfg["uni"])),
-              ("output bounds", latpred.bounds_viol(W, cfg["omin"], cfg["omax"])),
-              ("edgeworth trust", latpred.edgeworth_viol(W, sizes, cfg["edge"])),
-              ("trapezoid trust", latpred.trapezoid_viol(W, sizes, cfg["trap"])),
-              ("monotonic dominance", latpred.monotonic_dominance_viol(W, sizes, cfg["mdom"])),
-              ("range dominance", latpred.range_dominance_viol(W, sizes, cfg["rdom"])),
-              ("joint monotonicity", latpred.joint_monotonicity_viol(W, sizes, cfg["jmono"])),
-              ("joint unimodality", latpred.joint_unimodality_viol(W, sizes, cfg["juni"]))]
-    for name, v in checks:
+    tol = rtol * max(1.0, float(np.abs(W).max()))
+    # every configured inequality, one clause per constraint
+    for fam, key, label, v in constraint_violations(W, sizes, cfg):
       if v > tol:
-        fails.append("%s violated by %r on the fresh kernel" % (name, v))
+        add("%s violated by %r on the fresh kernel" % (label, v), fam, key, "pred")
     try:
-      layer.assert_constraints()
+      if f32:
+        layer.assert_constraints(eps=max(1e-6, tol))
+      else:
+        layer.assert_constraints()
     except Exception as e:  # pylint: disable=broad-except
-      fails.append("assert_constraints: %s" % assert_msg(e))
+      text, fam, key = assert_clause(e)
+      add("assert_constraints: %s" % text, fam, key, "assert" if fam != "other" else "other")
     if only_mono_bounds(cfg):
       out = layer.kernel.constraint(layer.kernel).numpy()
       if np.abs(out - W).max() > tol:
-        fails.append("constraint changes initial kernel by %r" % float(np.abs(out - W).max()))
+        add("constraint changes initial kernel by %r" % float(np.abs(out - W).max()))
   ov = "None" if not d["init"] else "(Some (%s, %s))" % (cq(d["init"][0]), cq(d["init"][1]))
   coq = "CLattice %s %s %s %s %s %s %s %s %s %s %s %s %s" % (
       coq_id(d["id"]), cnatl(sizes), cnat(units), zopt(monos_m), zopt(list(cfg["uni"]) if unis_kw is not None else None),
@@ -569,9 +751,11 @@ def eval_lattice(tf, tfl, d):
     fam += "_juniTwoGroupsCoverAll"
   if any(u and s > 5 for u, s in zip(au, sizes)):
     fam += "_uniSizeAbove5"
-  klass = "lat_%s_%s_%s_u%d" % (d["route"], ["lin", "rnd", "keras"][which_impl], fam, units)
+  klass = "lat_%s_%s_%s_u%d%s" % (d["route"], ["lin", "rnd", "keras"][which_impl], fam, units, "_f32" if f32 else "")
+  if f32:
+    coq = None   # H_C10.check compares with the fixed float64 tolerance: float32 cases are judged by the predicates only
   return Case(d, coq=coq, pred_fail="; ".join(fails) if fails else None, nontrivial=bool(np.ptp(W) > 0), klass=klass,
-              info={"kernel": W.ravel().tolist(), "initializer": tname})
+              info={"kernel": W.ravel().tolist(), "initializer": tname, "clauses": meta, "dtype": "float32" if f32 else "float64"})
 
 
 def eval_default(tf, tfl, d):
@@ -593,9 +777,12 @@ def eval_pwl(tf, tfl, d):
     layer = tfl.layers.PWLCalibration(
         input_keypoints=kps, units=units, output_min=d["omin"], output_max=d["omax"], clamp_min=d["clamp_min"],
         clamp_max=d["clamp_max"], monotonicity=mono_arg, is_cyclic=d["cyclic"],
-        kernel_initializer="equal_slopes" if d["slopes"] else "equal_heights", dtype="float64")
+        kernel_initializer="equal_slopes" if d["slopes"] else "equal_heights", dtype=dtype_of(d))
     layer.build((None, units))
     K = layer.kernel.numpy()
+    if str(K.dtype) != dtype_of(d):
+      fails.append("kernel dtype %s differs from the layer dtype" % K.dtype)
+    K = K.astype(np.float64)
     imin, imax = layer._output_init_min, layer._output_init_max  # pylint: disable=protected-access
     exp = tfl.pwl_calibration_lib.convert_all_constraints(d["omin"], d["omax"], d["clamp_min"], d["clamp_max"])
     if (imin, imax) != tuple(exp[:2]):
@@ -616,7 +803,8 @@ def eval_pwl(tf, tfl, d):
     layer = None
     coq = "CPwlDirect %s %s %s %s %s %s %s" % (cnat(len(kps)), cnat(units), cq(imin), cq(imax), cz(mono),
                                               "(Some %s)" % cql(kps) if d["slopes"] else "None", cqm(K.tolist()))
-  tol = PRED_TOL * max(1.0, abs(imin), abs(imax))
+  f32 = d["route"] == "layer" and dtype_of(d) == "float32"
+  tol = (F32_TOL if f32 else PRED_TOL) * max(1.0, abs(imin), abs(imax), float(np.abs(K).max()))
   heights = K[1:]
   vals = np.cumsum(K, axis=0)
   sgn = -1.0 if mono == -1 else 1.0
@@ -638,13 +826,19 @@ def eval_pwl(tf, tfl, d):
     if d["omin"] is not None and vals.min() < d["omin"] - tol or d["omax"] is not None and vals.max() > d["omax"] + tol:
       fails.append("pwl init: keypoint outputs outside the output bounds")
     try:
-      layer.assert_constraints()
+      if f32:
+        layer.assert_constraints(eps=max(1e-6, tol))
+      else:
+        layer.assert_constraints()
     except Exception as e:  # pylint: disable=broad-except
       fails.append("assert_constraints: %s" % (type(e).__name__ + " " + str(e).split("\n")[0][:120]))
     out = layer.kernel.constraint(layer.kernel).numpy()
     if np.abs(out - K).max() > tol:
       fails.append("constraint changes initial kernel by %r" % float(np.abs(out - K).max()))
-  klass = "pwl_%s_%s_m%d%s" % (d["route"], "slopes" if d["slopes"] else "heights", mono, "_cyc" if d["cyclic"] else "")
+  klass = "pwl_%s_%s_m%d%s%s" % (d["route"], "slopes" if d["slopes"] else "heights", mono, "_cyc" if d["cyclic"] else "",
+                                 "_f32" if f32 else "")
+  if f32:
+    coq = None   # predicates only (fixed float64 tolerance in H_C10.check)
   return Case(d, coq=coq, pred_fail="; ".join(fails) if fails else None, nontrivial=bool(np.abs(heights).max() > 0),
               klass=klass, info={"kernel": K.tolist()})
 
@@ -653,14 +847,19 @@ def eval_kfl(tf, tfl, d):
   size, dims, units, terms = d["size"], d["dims"], d["units"], d["terms"]
   tf.keras.utils.set_random_seed(d["seed"])
   layer = tfl.layers.KroneckerFactoredLattice(lattice_sizes=size, units=units, num_terms=terms, monotonicities=d["monos"],
-                                              output_min=d["omin"], output_max=d["omax"], dtype="float64")
+                                              output_min=d["omin"], output_max=d["omax"], dtype=dtype_of(d))
   layer.build(tf.TensorShape((None, dims)) if units == 1 else tf.TensorShape((None, units, dims)))
-  K = layer.kernel.numpy()
-  scale = layer.scale.numpy()
-  bias = layer.bias.numpy()
+  f32 = dtype_of(d) == "float32"
+  rtol = F32_TOL if f32 else 1e-9
+  npdt = np.float32 if f32 else np.float64
+  dtype_fail = [] if str(layer.kernel.numpy().dtype) == dtype_of(d) else [
+      "kernel dtype %s differs from the layer dtype" % layer.kernel.numpy().dtype]
+  K = layer.kernel.numpy().astype(np.float64)
+  scale = layer.scale.numpy().astype(np.float64)
+  bias = layer.bias.numpy().astype(np.float64)
   imin, imax = tfl.kronecker_factored_lattice_lib.default_init_params(d["omin"], d["omax"])
   tf.keras.utils.set_random_seed(d["seed"])
-  raw = tf.random.uniform(K.shape, imin, imax, dtype=tf.float64).numpy()
+  raw = tf.random.uniform(K.shape, imin, imax, dtype=tf.float32 if f32 else tf.float64).numpy().astype(np.float64)
   recovered = np.allclose(np.sort(raw.ravel()), np.sort(K.ravel()), rtol=0, atol=0)
   if not recovered:
     raw = K.copy()  # fall back: the kernel itself as the sample (the model must then leave it unchanged)
@@ -668,7 +867,7 @@ def eval_kfl(tf, tfl, d):
   R5 = raw.reshape(size, units, dims, terms)
   monos = list(d["monos"]) if d["monos"] is not None else [0] * dims
   any_mono = any(monos)
-  fails = []
+  fails = list(dtype_fail)
   coq = ["CKflScaleBias %s %s %s %s %s %s %s %s" % (cnat(units), cnat(terms), copt(d["omin"]), copt(d["omax"]),
                                                      cqm(scale.tolist()), cql(bias.tolist()), cq(imin), cq(imax))]
   for u in range(units):
@@ -679,7 +878,8 @@ def eval_kfl(tf, tfl, d):
                                               cql(R5[:, u, dd, t].tolist()), cql(col.tolist())))
         if monos[dd] and (np.diff(np.sign(scale[u, t]) * col) < 0).any():
           fails.append("kfl init: column (unit %d, dim %d, term %d) not sorted in the direction of sign(scale)" % (u, dd, t))
-  if K.min() < imin or K.max() > imax:
+  btol = rtol * max(1.0, abs(imin), abs(imax)) if f32 else 0.0   # float32 rounding of the (float64) init range ends
+  if K.min() < imin - btol or K.max() > imax + btol:
     fails.append("kfl init: kernel outside [%r, %r]" % (imin, imax))
   # the function the fresh layer computes: vertices plus a few interior points
   grid = list(itertools.product(range(size), repeat=dims))
@@ -688,8 +888,8 @@ def eval_kfl(tf, tfl, d):
   extra = rs.randint(0, 8 * (size - 1) + 1, size=(12, dims)) / 8.0
   X = np.concatenate([pts, extra], axis=0)
   Xin = X if units == 1 else np.repeat(X[:, None, :], units, axis=1)
-  Y = layer(tf.constant(Xin)).numpy().reshape(len(X), units)
-  tol = 1e-9 * max(1.0, float(np.abs(Y).max()))
+  Y = layer(tf.constant(Xin.astype(npdt))).numpy().astype(np.float64).reshape(len(X), units)
+  tol = rtol * max(1.0, float(np.abs(Y).max()))
   if d["omin"] is not None and Y.min() < d["omin"] - tol or d["omax"] is not None and Y.max() > d["omax"] + tol:
     fails.append("kfl init: output outside the bounds (%r .. %r)" % (float(Y.min()), float(Y.max())))
   index = {g: i for i, g in enumerate(grid)}
@@ -704,23 +904,29 @@ def eval_kfl(tf, tfl, d):
       if monos[dd] and X[k, dd] + 0.25 <= size - 1:
         X2 = X[k:k + 1].copy(); X2[0, dd] += 0.25
         X2in = X2 if units == 1 else np.repeat(X2[:, None, :], units, axis=1)
-        if (layer(tf.constant(X2in)).numpy().reshape(units) - Y[k]).min() < -tol:
+        if (layer(tf.constant(X2in.astype(npdt))).numpy().astype(np.float64).reshape(units) - Y[k]).min() < -tol:
           fails.append("kfl init: output decreases along monotone dim %d at an interior point" % dd)
   fails = sorted(set(fails))
   try:
-    layer.assert_constraints()
+    if f32:
+      layer.assert_constraints(eps=max(1e-6, tol))
+    else:
+      layer.assert_constraints()
   except Exception as e:  # pylint: disable=broad-except
     fails.append("assert_constraints: %s" % (type(e).__name__ + " " + str(e).split("\n")[0][:120]))
+  ktol = rtol * max(1.0, float(np.abs(K).max()), float(np.abs(scale).max()))
   if layer.kernel.constraint is not None:
     out = layer.kernel.constraint(layer.kernel).numpy()
-    if np.abs(out - K).max() > 1e-9:
+    if np.abs(out - K).max() > ktol:
       fails.append("constraint changes initial kernel by %r" % float(np.abs(out - K).max()))
   if layer.scale.constraint is not None:
     out = layer.scale.constraint(layer.scale).numpy()
-    if np.abs(out - scale).max() > 1e-9:
+    if np.abs(out - scale).max() > ktol:
       fails.append("scale constraint changes initial scale by %r" % float(np.abs(out - scale).max()))
   bm = ("min" if d["omin"] is not None else "") + ("max" if d["omax"] is not None else "") or "nobounds"
-  klass = "kfl_%s_t%d_u%d%s" % (bm, min(terms, 2), units, "" if recovered else "_inverted")
+  klass = "kfl_%s_t%d_u%d%s%s" % (bm, min(terms, 2), units, "" if recovered else "_inverted", "_f32" if f32 else "")
+  if f32:
+    coq = None   # predicates only (fixed float64 tolerance in H_C10.check)
   return Case(d, coq=coq, pred_fail="; ".join(fails) if fails else None, nontrivial=True, klass=klass,
               info={"kernel": K.ravel().tolist(), "scale": scale.tolist(), "bias": bias.tolist()})
 
@@ -734,18 +940,25 @@ def eval_categorical(tf, tfl, d):
   else:
     init = d["init"]
   layer = tfl.layers.CategoricalCalibration(num_buckets=n, units=units, output_min=d["omin"], output_max=d["omax"],
-                                            monotonicities=pairs, kernel_initializer=init, dtype="float64")
+                                            monotonicities=pairs, kernel_initializer=init, dtype=dtype_of(d))
   layer.build((None, units))
   K = layer.kernel.numpy()
   fails = []
-  tol = 1e-9
+  f32 = dtype_of(d) == "float32"
+  if str(K.dtype) != dtype_of(d):
+    fails.append("kernel dtype %s differs from the layer dtype" % K.dtype)
+  K = K.astype(np.float64)
+  tol = (F32_TOL if f32 else 1e-9) * max(1.0, float(np.abs(K).max()))
   for a, b in d["pairs"]:
     if (K[a] - K[b]).max() > tol:
       fails.append("ordering pair (%d, %d) violated by %r on the fresh kernel" % (a, b, float((K[a] - K[b]).max())))
   if d["omin"] is not None and K.min() < d["omin"] - tol or d["omax"] is not None and K.max() > d["omax"] + tol:
     fails.append("output bounds violated on the fresh kernel")
   try:
-    layer.assert_constraints()
+    if f32:
+      layer.assert_constraints(eps=max(1e-6, tol))
+    else:
+      layer.assert_constraints()
   except Exception as e:  # pylint: disable=broad-except
     fails.append("assert_constraints: %s" % (type(e).__name__ + " " + str(e).split("\n")[0][:120]))
   if layer.kernel.constraint is not None:
@@ -753,10 +966,10 @@ def eval_categorical(tf, tfl, d):
     if np.abs(out - K).max() > tol:
       fails.append("constraint changes initial kernel by %r" % float(np.abs(out - K).max()))
   coq = None
-  if d["init"] == "raw":
+  if d["init"] == "raw" and not f32:   # float32: predicates only (fixed float64 tolerance in H_C10.check)
     ps = clist(["(%s, %s)" % (cnat(a), cnat(b)) for a, b in d["pairs"]]) if d["pairs"] else "(@nil (nat*nat))"
     coq = "CCategorical %s %s %s %s %s %s" % (ps, copt(d["omin"]), copt(d["omax"]), cnat(units), cqm(d["raw"]), cqm(K.tolist()))
-  klass = "cat_%s_%s" % (d["init"], "pairs" if d["pairs"] else "nopairs")
+  klass = "cat_%s_%s%s" % (d["init"], "pairs" if d["pairs"] else "nopairs", "_f32" if f32 else "")
   return Case(d, coq=coq, pred_fail="; ".join(fails) if fails else None, nontrivial=bool(np.ptp(K) > 0), klass=klass,
               info={"kernel": K.tolist()})
 
